@@ -29,6 +29,28 @@ def collect(h):
     if not re.search(r"if readyToFlushBundle \|\| p\.nonBuffered \{\s*if err := p\.flush\(\)", body):
         raise h.Missing(f"{rel}: DoAsync: flush condition changed")
 
+    # isProjectorDefined: is an event whose workspace descriptor cannot be read (yet) an error
+    # (MustExist) or passed over as "projector not defined there" (CanExist)?
+    body = h.func_body(rel, r"^func \(p \*asyncProjector\) isProjectorDefined\(\)", "isProjectorDefined")
+    if re.search(r"p\.state\.MustExist\(skbCDocWorkspaceDescriptor\)", body):
+        must = True
+    elif re.search(r"p\.state\.CanExist\(skbCDocWorkspaceDescriptor\)", body):
+        must = False
+    else:
+        raise h.Missing(f"{rel}: isProjectorDefined: cannot recognise the lookup of the workspace descriptor")
+    items.append(("c09_descriptor_must_exist", "bool", "true" if must else "false", rel))
+    # DoAsync: is the event released at the end of DoAsync although its intents stay in the bundle
+    # (finding C09-F2), or held until the flush that stores them?
+    body = h.func_body(rel, r"^func \(p \*asyncProjector\) DoAsync\(", "DoAsync")
+    fl = h.func_body(rel, r"^func \(p \*asyncProjector\) flush\(\)", "asyncProjector.flush")
+    if re.search(r"^\s*defer work\.Release\(\)", body, re.M):
+        early = True
+    elif "p.heldEvents = append(p.heldEvents, work)" in body and "p.releaseHeldEvents()" in fl:
+        early = False
+    else:
+        raise h.Missing(f"{rel}: DoAsync: cannot recognise when the event is released")
+    items.append(("c09_event_released_before_flush", "bool", "true" if early else "false", rel))
+
     # pipeline: an operator that failed (or whose context is cancelled) releases workpieces
     # unprocessed and flushes neither by timer nor at disassembly
     rel = "pkg/pipeline/async.go"
